@@ -13,6 +13,7 @@ THEOREMS = [
     'OpenHTF.Exec.c05_one_record_per_invocation_at_most_limit',
     'OpenHTF.Exec.c05_reinvoked_only_for',
     'OpenHTF.Exec.c05_runif_false_no_body_no_record',
+    'OpenHTF.Exec.c05_runif_false_ends_the_loop',
 ]
 RULE = ('one phase under test with behaviour sequences of length<=4 over raw(10) x measurement summary(6) x diagnoser '
         'summary(4), option sets (repeat_limit in {None,1,2,3,4}, force_repeat, repeat_on_measurement_fail, '
@@ -120,10 +121,13 @@ def gen_cases(rng, tier):
     c['pos'] = 'table/' + pos
     cases.append(c)
   # directed: timeouts with / without repeat_on_timeout (real-time cost 0.25 s per timeout)
-  T, C = {'raw': 'timeout'}, {'raw': 'cont'}
+  T, C, R = {'raw': 'timeout'}, {'raw': 'cont'}, {'raw': 'rep'}
   for opts, beh in [({'rot': True}, [T, C]), ({'rot': True}, [T, T, T, C]), ({'rot': True, 'limit': 2}, [T, T, C]),
                     ({}, [T, C]), ({'fr': True}, [T, C]), ({'rot': True, 'limit': 1}, [T, C]),
-                    ({'rot': True}, [T, {'raw': 'cont', 'meas': ['fail']}]), ({'rot': True, 'rmf': True}, [{'raw': 'cont', 'meas': ['fail']}, T, C])]:
+                    ({'rot': True}, [T, {'raw': 'cont', 'meas': ['fail']}]), ({'rot': True, 'rmf': True}, [{'raw': 'cont', 'meas': ['fail']}, T, C]),
+                    # REPEATs and retried timeouts draw on ONE budget (seeded/C05-14 counted them apart)
+                    ({'rot': True, 'limit': 2}, [R, T, C]), ({'rot': True, 'limit': 2}, [T, R, C]), ({'rot': True}, [R, T, R, C]),
+                    ({'rot': True, 'limit': 3}, [R, R, T, C])]:
     for pos in (['first', 'teardown', 'start'] if tier == 'thorough' else ['first']):
       c = _wrap(pos, _p(1, [dict(b) for b in beh], opts))
       c['pos'] = 'timeout/' + pos
@@ -219,7 +223,7 @@ MANIFEST = {
             'priority list written independently of the finalize pipeline), ERROR iff the executor sees a terminal '
             'result, every diagnoser runs once unless skipped/repeated (also when one raises), each invocation yields '
             'exactly one record, at most repeat_limit (default 3, regenerated constant) invocations, re-invocation only '
-            'for the documented reasons, false run_if = no body and no record. Tie: real htf.Test.execute() runs with '
+            'for the documented reasons, false run_if = no body and no record, and it ends the invocation loop whatever the repeat options (after fix d4399cb4). Tie: real htf.Test.execute() runs with '
             'scripted bodies/measurements/diagnosers, compared record-for-record and call-for-call with the model; the '
             'Lean spec is evaluated per phase on the real observation.',
     'note': 'Trusted: Lean kernel + standard axioms; exec_common harness; Lean driver. Modelled not verified: threads, kill '
